@@ -213,6 +213,36 @@ def handle (op : String) (args : List String) (impl : Impl) : Option Ans :=
       | _, _ => "unmodelled"
     pure { model := m, spec := sp,
            branch := "series_dyn:" ++ (if incl then "incl" else "excl") ++ ":" ++ start.ts.name ++ "," ++ endTs.name }
+  | "weekday_dyn", [e, t] => do
+    -- C16 with a dynamical scale on either side: the weekday of the calendar date in the target scale. Instants of
+    -- dynamical epochs, and counts in dynamical targets, come from the property's closed forms (C07: 30 ns each), so the
+    -- verdict is demanded when the civil time of day is more than 300 ns away from the target's midnight
+    let e ← parseEp? e; let ts ← TS.ofString? t
+    if !(e.ts == TS.ET || e.ts == TS.TDB || ts == TS.ET || ts == TS.TDB) then none else
+    let i ← instEst e
+    let v : Option Int :=
+      if ts == TS.ET || ts == TS.TDB then
+        let tau := i - j2000ns
+        some (tau + truncToInt (closedForm ts (toSecondsF (Dur.fromTotal tau)) + 0.5))
+      else if ts == TS.UTC then
+        (let cands := (0 :: iersTbl.map (·.2)).map (fun l => i - l * 1000000000) |>.filter (fun v => denotes iersTbl "UTC" v i)
+         cands.head?)
+      else (scaleOff ts.name).map (fun o => i - o)
+    let m := (toTimeScaleF e ts).map (fun x => weekdayOfDur (Dur.add x.dur (Cal.gregorianEpochOffset ts)))
+    let near (cv : Int) : Bool := let tod := cv % nsPerDay; tod < 300 || tod > nsPerDay - 300
+    let sp := match impl, v with
+      | .ok [w], some v =>
+        let cv := v + refOffsetNs ts.name
+        if near cv then "na" else verdict [("civil_weekday", w == toString (specWeekday cv))]
+      | .ok _, _ => "na"
+      | .other x, _ => "FAIL:" ++ x
+    let tag := match v with
+      | some v => let tod := (v + refOffsetNs ts.name) % nsPerDay
+                  let dist := if tod < nsPerDay - tod then tod else nsPerDay - tod
+                  if dist < 300 then "within_300ns" else if dist < 25000 then "<25us" else if dist < 1000000000 then "<1s" else "far"
+      | none => "no_value"
+    pure { model := (match m with | some w => "ok " ++ toString w | none => "unmodelled"), spec := sp,
+           branch := "weekday_dyn:" ++ e.ts.name ++ ">" ++ ts.name ++ ":" ++ tag }
   | "weekday", [e] | "weekday_utc", [e] | "weekday_ts", [e, _] => do
     -- C16 for epochs HELD in ET or TDB (the handler of Drive/Epoch answers nothing for them): the weekday of the calendar
     -- date in the target scale; the instant comes from the closed form (30 ns), so the verdict is demanded when the civil
